@@ -85,8 +85,9 @@ def gen_audio(rng):
 def check_write(ctx, rng, tmp, data, rate, width, channels):
     """auditok writes, stdlib reads."""
     fmt = rng.choice(("wav", "raw"))
-    spelling = rng.randrange(6)
-    name = {0: f"a.{fmt}", 1: f"b.{fmt.upper()}", 2: "noext", 3: "c.bin", 4: f"d.{'raw' if fmt == 'wav' else 'wav'}", 5: f"e.{fmt}"}[spelling]
+    spelling = rng.randrange(8)
+    name = {0: f"a.{fmt}", 1: f"b.{fmt.upper()}", 2: "noext", 3: "c.bin", 4: f"d.{'raw' if fmt == 'wav' else 'wav'}", 5: f"e.{fmt}",
+            6: f"s_$TAKE.{fmt}", 7: f"s $TAKE %TAKE% ~x.{fmt}"}[spelling]  # $NAME / ${NAME} of a DEFINED variable are just characters
     explicit = None
     if spelling == 2:
         explicit = None if fmt == "raw" else rng.choice(("wav", "wave", "WAV"))
@@ -133,7 +134,7 @@ def check_read(ctx, rng, tmp, data, rate, width, channels):
     """stdlib writes, auditok reads (eager and lazy, load and from_file)."""
     fmt = rng.choice(("wav", "raw"))
     named = rng.choice((True, True, False))
-    name = f"in.{fmt}" if named else "in_noext"
+    name = (f"in.{fmt}" if rng.random() < 0.7 else f"in_$TAKE_${{TAKE}}.{fmt}") if named else "in_noext"
     path = os.path.join(tmp, name)
     if fmt == "wav":
         wav_write(path, data, rate, width, channels)
@@ -200,7 +201,10 @@ def check_template_and_exists(ctx, rng, tmp, data, rate, width, channels):
     reg = AudioRegion(data, rate, width, channels, start)
     ext = rng.choice(("wav", "raw"))
     template = os.path.join(tmp, rng.choice(("ev_{start}_{end}." + ext, "ev_{start:.3f}-{end:.3f}_{duration:.3f}." + ext,
-                                             "ev_{duration}." + ext, "plain." + ext, "x{start:06.2f}." + ext)))
+                                             "ev_{duration}." + ext, "plain." + ext, "x{start:06.2f}." + ext,
+                                             # characters that mean something to a shell or to os.path.expandvars mean nothing in a file name
+                                             # (TAKE is defined in the environment of every check process)
+                                             "take_$TAKE_{start}." + ext, "take_${{TAKE}}_{end}." + ext, "%TAKE%_{duration}." + ext)))
     expected = template.format(start=reg.start, end=reg.end, duration=reg.duration)
     case = {"op": "save-template", "template": os.path.basename(template), "start": start, "fmt": [rate, width, channels], "nbytes": len(data)}
     ctx.case(repr(case), bool(data))
